@@ -20,6 +20,7 @@ type Mix struct {
 	PinVisit, ResumeVisit                                                           int
 	FaultyMut                                                                       int // a Set/Delete during which one file read fails
 	FaultyFlush                                                                     int // a Flush during which one file write fails (outright or torn), optionally retried
+	VisitEvict                                                                      int // a key-only visit whose callback calls EvictSomeItems (as CopyTo does)
 }
 
 // HistCfg describes how a history is generated.
@@ -184,7 +185,7 @@ func (h *Hist) Step() {
 	}
 	w := []int{mx.Set, mx.SetInvalid, mx.Delete, mx.Get, mx.GetItem, mx.Exist, mx.MinMax, mx.Totals, mx.Visit, mx.Iter, mx.Len,
 		mx.Flush, mx.Evict, mx.Reopen, mx.Snapshot, mx.SnapRead, mx.SnapClose, mx.SnapRevert, mx.SnapOfSnap, mx.SnapMutate,
-		mx.SetCollNew, mx.SetCollExisting, mx.RemoveColl, mx.GetColl, mx.FlushRevert, mx.CollWrite, mx.Close, mx.CopyTo, mx.PinVisit, mx.ResumeVisit, mx.FaultyMut, mx.FaultyFlush}
+		mx.SetCollNew, mx.SetCollExisting, mx.RemoveColl, mx.GetColl, mx.FlushRevert, mx.CollWrite, mx.Close, mx.CopyTo, mx.PinVisit, mx.ResumeVisit, mx.FaultyMut, mx.FaultyFlush, mx.VisitEvict}
 	name := h.liveName()
 	op := r.WeightedPick(w)
 	switch op {
@@ -426,6 +427,12 @@ func (h *Hist) Step() {
 			h.Feat["failed-mutation"] = true
 			e.Stats["failed-mutations"]++
 		}
+	case 32: // the visitor evicts while the visit is in progress (re-entrancy from the mutator goroutine)
+		if name == "" {
+			return
+		}
+		e.VisitEvicting(name, r.Bool(), r.Intn(3))
+		h.Feat["visit-evict"] = true
 	case 31: // a Flush that fails on one of its writes; the retry must make everything durable
 		if e.F == nil {
 			return
